@@ -210,7 +210,7 @@ pub fn trees(cfg: &Cfg, n: usize, memo: &mut HashMap<usize, Vec<Node>>) -> Vec<N
                     if !matches!(a, Alt(_)) && !matches!(b, Alt(_)) {
                         out.push(Alt(vec![a.clone(), b.clone()]));
                     }
-                    if cfg.cond && !(*a == Empty && *b == Empty) {
+                    if cfg.cond {
                         out.push(CondGroup(1, bx(a.clone()), bx(b.clone())));
                     }
                 }
@@ -227,7 +227,7 @@ pub fn trees(cfg: &Cfg, n: usize, memo: &mut HashMap<usize, Vec<Node>>) -> Vec<N
                     for a in &x {
                         for b in &y {
                             for c in &z {
-                                if cfg.cond && *a != Empty && !(*b == Empty && *c == Empty) {
+                                if cfg.cond && *a != Empty {
                                     out.push(CondExpr(bx(a.clone()), bx(b.clone()), bx(c.clone())));
                                 }
                                 if cfg.ternary_concat && ![a, b, c].iter().any(|t| matches!(t, Concat(_)) || **t == Empty) {
